@@ -24,3 +24,33 @@ func init() {
 		"E2: real NodeHosts on strict in-memory file systems; the exported directory is copied file by file to the hosts that import it",
 	}, Stage{Engine: "clusterrun", Mode: "importer", BatchesQ: 6, BatchesT: 16, Par: 6, TimeoutQ: 900, TimeoutT: 3600})
 }
+
+func init() {
+	// C04, store half: "SaveRaftState returned => term, vote and entries are durable", for the
+	// default Pebble store and for Tan, at every file-system operation of deterministic workloads
+	// (the node half - nothing leaves the replica before SaveRaftState returned - is the chaos
+	// stage's send monitor)
+	for _, f := range []string{"tan", "pebble-plain"} {
+		addStages("C04", "fault_enumeration", []string{
+			"E3 crash stages: power loss (all unsynced data dropped) at every mutating file-system operation of the log store workloads; every acknowledged SaveRaftState (hard state incl. vote, entries, snapshot record) must be readable after reopen",
+		}, Stage{Engine: "storecheck", Mode: "crash-" + f, BatchesQ: 16, BatchesT: 32, Par: 16, TimeoutQ: 300, TimeoutT: 3000})
+	}
+}
+
+func init() {
+	addStages("C05", "exploration", []string{
+		"E2 sessions stage: clients with registered sessions retry a timed out proposal with the same series id, through any host, across leader changes, snapshots, crashes and restarts; unique payload ids make a second application visible in the final lists",
+	}, Stage{Engine: "clusterrun", Mode: "sessions", Race: true, BatchesQ: 8, BatchesT: 16, Par: 8, TimeoutQ: 900, TimeoutT: 5400})
+}
+
+func init() {
+	addStages("C18", "exploration", []string{
+		"E2 roles stage: 2 voters + 1 witness + 1 non-voting replica on real NodeHosts; messages to the witness are inspected at the send hook, the witness's state machine must stay untouched and its API must refuse client requests",
+	}, Stage{Engine: "clusterrun", Mode: "roles", Race: true, BatchesQ: 4, BatchesT: 12, Par: 6, TimeoutQ: 900, TimeoutT: 3600})
+}
+
+func init() {
+	addStages("C08", "exploration", []string{
+		"E2 replay stage: real NodeHosts with frequent snapshots and short logs; every replica's final state is compared with the replay of the whole committed log",
+	}, Stage{Engine: "clusterrun", Mode: "replay", Race: true, BatchesQ: 8, BatchesT: 16, Par: 8, TimeoutQ: 900, TimeoutT: 5400})
+}
